@@ -461,7 +461,7 @@ def check_step(tree, cfg, op, root, pre, post, rc, out, err, stdin_bytes, workdi
     post_b = {r: x[0] for r, x in post.items()}
     absname = {rel: os.path.join(root, rel) for rel in tree.rels}
     relname = {a: r for r, a in absname.items()}
-    error_reported = bool(err)
+    error_reported = bool(err) or rc not in (0, 1)
 
     def file_key(rel):
         return f"{tree.role[rel]}[{cls_of(pre_b[rel])}]"
@@ -522,7 +522,9 @@ def check_step(tree, cfg, op, root, pre, post, rc, out, err, stdin_bytes, workdi
         gone = set(pre) - set(post)
         if gone:
             v.append(("tree", None, "files mode deleted a file", {"gone": sorted(gone)}))
-        if op.l:
+        # What `-l` prints together with --backup is outside the property (it only quantifies over
+        # "with and without -l / --backup"); this snapshot prints nothing there, which is not judged.
+        if op.l and not op.backup:
             named = names_listed(out)
             want = {absname[r] for r in changed}
             if named != want:
@@ -661,7 +663,7 @@ def run_history(spec, verbose=False):
     init_label = state_label(tree, init)
     hist_name = ";".join(o.name for o in ops)
     res = {"violations": [], "states": set(), "transitions": 0, "stderr_runs": 0, "nontrivial": False,
-           "rewrites": 0, "observed_effect": False, "steps": []}
+           "rewrites": 0, "observed_effect": False, "steps": [], "abnormal": []}
     needs_any = any(reference(b, cfg) is not None and reference(b, cfg) != b for b in init.values())
     res["nontrivial"] = needs_any
     stdin_rel = tree.targets[0]
@@ -679,8 +681,10 @@ def run_history(spec, verbose=False):
         res["transitions"] += 1
         if err:
             res["stderr_runs"] += 1
-        if rc < 0 or rc not in (0, 1):
-            res["violations"].append(("machinery", f"rc={rc}", show(err)))
+        if rc not in (0, 1):
+            # abnormal termination is C16's business; here the run counts as "an error was reported" (only the
+            # read-only clause is judged) and is tallied
+            res["abnormal"].append(f"{tree.name}[{state_label(tree, pre_b)}] cfg[{cfg}] op[{op.name}] rc={rc}")
         found = check_step(tree, cfg, op, root, pre, post, rc, out, err, stdin_bytes, workdir)
         pre_label = state_label(tree, pre_b)
         changed_now = post_b != pre_b
@@ -878,6 +882,7 @@ def main():
     states = set()
     seen = set()
     machinery = []
+    abnormal = []
     per_tree = {}
     for spec, r in zip(specs, results):
         if "crash" in r:
@@ -889,6 +894,8 @@ def main():
         run.count("histories_len%d" % len(spec["ops"]))
         run.count("runs_with_stderr", r["stderr_runs"])
         run.count("steps_that_rewrote_files", r["rewrites"])
+        run.count("abnormal_exits", len(r["abnormal"]))
+        abnormal.extend(r["abnormal"])
         if r["observed_effect"]:
             run.count("histories_whose_second_step_saw_the_first_steps_effect")
         states |= r["states"]
@@ -926,6 +933,10 @@ def main():
     SCRATCH.cleanup()
     if machinery:
         print(f"machinery error: {len(machinery)} histories could not be judged; first: {machinery[0]}", file=sys.stderr)
+        sys.exit(2)
+    if abnormal and not run.violations:
+        print(f"machinery error: rustfmt terminated abnormally in {len(abnormal)} runs (first: {abnormal[0]}); "
+              "those runs cannot be judged here (see C16)", file=sys.stderr)
         sys.exit(2)
     if run.counters.get("runs_with_stderr", 0) > run.counters.get("transitions", 0) // 4:
         print("machinery error: most runs wrote to stderr; the environment is not the expected one", file=sys.stderr)
